@@ -125,6 +125,9 @@ impl Trace for ClassAttributes {
 #[derive(Debug, Clone, Copy)]
 pub struct TryAttributes {
   scope_depth: usize,
+
+  /// How many try blocks of this function are active here, this one included
+  depth: usize,
 }
 
 #[derive(Debug, Clone, Copy)]
@@ -132,6 +135,9 @@ pub struct LoopAttributes {
   scope_depth: usize,
   start: Label,
   end: Label,
+
+  /// How many try blocks of this function were active where the loop began
+  try_depth: usize,
 }
 
 #[derive(Default)]
@@ -443,6 +449,11 @@ impl<'a, 'src: 'a> Compiler<'a, 'src> {
     print_symbolic_code(&mut stdio, chunk, &name).expect("could not write to stdio");
   }
 
+  /// The number of try blocks of this function that are active at this point
+  fn try_depth(&self) -> usize {
+    self.try_attributes.map_or(0, |try_attributes| try_attributes.depth)
+  }
+
   /// Emit byte code for a return
   fn emit_return(&mut self, line: u32) {
     match self.fun_kind {
@@ -454,7 +465,8 @@ impl<'a, 'src: 'a> Compiler<'a, 'src> {
       _ => self.emit_byte(SymbolicByteCode::Nil, line),
     }
 
-    if self.try_attributes.is_some() {
+    // a return leaves every try block of this function
+    for _ in 0..self.try_depth() {
       self.emit_byte(SymbolicByteCode::PopHandler, line);
     }
 
@@ -474,6 +486,7 @@ impl<'a, 'src: 'a> Compiler<'a, 'src> {
       scope_depth: self.scope_depth,
       start,
       end,
+      try_depth: self.try_depth(),
     };
     let enclosing_loop = self.loop_attributes.replace(loop_attributes);
 
@@ -1600,7 +1613,8 @@ impl<'a, 'src: 'a> Compiler<'a, 'src> {
       Some(v) => {
         self.expr(v);
 
-        if self.try_attributes.is_some() {
+        // a return leaves every try block of this function
+        for _ in 0..self.try_depth() {
           self.emit_byte(SymbolicByteCode::PopHandler, v.end());
         }
 
@@ -1619,12 +1633,10 @@ impl<'a, 'src: 'a> Compiler<'a, 'src> {
     let new_local_count = self.drop_local_count(loop_attributes.scope_depth);
     self.drop_locals(continue_.end(), new_local_count);
 
-    // if our try catch is inside this loop
-    // a break will jump outside of it so we need to pop the handler
-    if let Some(try_attributes) = self.try_attributes {
-      if try_attributes.scope_depth > loop_attributes.scope_depth {
-        self.emit_byte(SymbolicByteCode::PopHandler, continue_.start());
-      }
+    // every try catch that began inside this loop is left by the
+    // jump so we need to pop each of their handlers
+    for _ in loop_attributes.try_depth..self.try_depth() {
+      self.emit_byte(SymbolicByteCode::PopHandler, continue_.start());
     }
 
     self.emit_byte(
@@ -1642,12 +1654,10 @@ impl<'a, 'src: 'a> Compiler<'a, 'src> {
     let new_local_count = self.drop_local_count(loop_attributes.scope_depth);
     self.drop_locals(break_.end(), new_local_count);
 
-    // if our try catch is inside this loop
-    // a break will jump outside of it so we need to pop the handler
-    if let Some(try_attributes) = self.try_attributes {
-      if try_attributes.scope_depth > loop_attributes.scope_depth {
-        self.emit_byte(SymbolicByteCode::PopHandler, break_.start());
-      }
+    // every try catch that began inside this loop is left by the
+    // jump so we need to pop each of their handlers
+    for _ in loop_attributes.try_depth..self.try_depth() {
+      self.emit_byte(SymbolicByteCode::PopHandler, break_.start());
     }
 
     self.emit_byte(SymbolicByteCode::Jump(loop_attributes.end), break_.start());
@@ -1658,6 +1668,7 @@ impl<'a, 'src: 'a> Compiler<'a, 'src> {
     // set this try block as the current
     let try_attributes = TryAttributes {
       scope_depth: self.scope_depth,
+      depth: self.try_depth() + 1,
     };
     let enclosing_try = self.try_attributes.replace(try_attributes);
 
